@@ -137,11 +137,11 @@ PROPS = {
         "assumptions": ["merges restricted to trees (no emptied slot, DESIGN §4)"],
     },
     "C09": {
-        "claim": "Decides the sodg-side premises of the prefix argument (DESIGN C09): in load() the results of the file read and of the decode are only propagated (no unwrap/expect/ok()/unwrap_or*), the only Ok(..) returned is reached through their success edges and carries the value decoded from the complete byte vector, and every Deserialize in the closure of Sodg is derived with no field defaulted other than next_v (which consumes no input). With bincode's left-to-right slice reader (trusted) a proper prefix of a valid image then yields UnexpectedEof, i.e. Err.",
+        "claim": "Decides the sodg-side premises of the prefix argument (DESIGN C09): in load() the results of the file read and of the decode are only propagated (no unwrap/expect/ok()/unwrap_or*), the only Ok(..) returned is reached through their success edges and carries the value decoded from the complete byte vector, and every Deserialize in the closure of Sodg is derived with no field defaulted other than next_v (which consumes no input). With bincode's left-to-right slice reader (trusted) a proper prefix of a valid image then yields UnexpectedEof, i.e. Err. SZ6 (container premise): every table of the graph on which a slot removal is reachable (who-may-call on emap remove/clear/retain…; today the vertex table, through merge()'s repair path) is the last section of the image as written and as read — emap's reader panics on a completely decoded table with a hole, so such a table must not be followed by further sections.",
         "note": "Trusted: bincode 1.3.3 slice reader (every missing byte is UnexpectedEof, length prefixes checked before allocating) and the container visitors, as read; the hand argument 'prefix determinism ⇒ C09'.",
         "technique": "MIR error-discipline rule on load() + derived-impl inventory",
-        "rules": [("LD1/LD2", SZ.ld12), ("SZ1", SZ.sz1), ("SZ2", SZ.sz2), ("SZ4", functools.partial(SZ.sz345, roundtrip=False))],
-        "explanation": "LD1 results only propagated, LD2 single Ok through success edges, SZ1/SZ2 derived readers without defaulted fields, SZ4 whole-file decode.",
+        "rules": [("LD1/LD2", SZ.ld12), ("SZ1", SZ.sz1), ("SZ2", SZ.sz2), ("SZ4", functools.partial(SZ.sz345, roundtrip=False)), ("SZ6", SZ.sz6)],
+        "explanation": "LD1 results only propagated, LD2 single Ok through success edges, SZ1/SZ2 derived readers without defaulted fields, SZ4 whole-file decode, SZ6 a table that can have holes is the last section.",
         "trusted": [RUSTC, "bincode 1.3.3 slice reader", CONTAINERS],
         "assumptions": [],
     },
